@@ -512,6 +512,7 @@ O("C12.max_simul.text", ["C12", "C05"], "h_C14m.c", "h_C12_max_simul_text",
 O("C05.umask.text", ["C05"], "h_C14m.c", "h_C05_umask_text",
   "X-ECHS-UMASK read, made a task, written: the same value for 0..0777; absent or out of range = unset, not written - for every number",
   ["snarf_fld", "make_task", "send_task"], **EM)
+# C02.date_lines (harness h_C02_date_lines in h_C14m.c, written for fix ea68475): no answer in 900 s on three back ends (dt_strp stubbed, two concrete lines) -- not registered
 O("C14.make_task.vtodo", ["C14"], "h_C14m.c", "h_C14_make_task_vtodo",
   "make_task on an execution request (VTODO without DTSTART): a positive DURATION becomes the timeout unchanged, otherwise a DUE time becomes the deadline unchanged, otherwise no limit - for every duration and every DUE value",
   ["make_task"], **EM)
